@@ -1,4 +1,6 @@
 import Firebolt.Model.EsSink
+import Firebolt.Generated.Skeleton
+import Firebolt.Expected.Skeleton
 import Firebolt.Generated.Source
 import Firebolt.Expected.Source
 import Firebolt.Generated.Closure
@@ -387,6 +389,10 @@ theorem source_esShutdown : GeneratedSrc.esShutdown = ExpectedSrc.esShutdown := 
 /-! ### functions the model's assumptions rest on (construction, wiring, surrounding calls) are unchanged -/
 theorem source_esSetup : GeneratedSrc.esSetup = ExpectedSrc.esSetup := by rfl
 theorem source_newElasticIndexClient : GeneratedSrc.newElasticIndexClient = ExpectedSrc.newElasticIndexClient := by rfl
+
+/-! ### how the executor hands an event to an async node and reads its answer (the sink answers with the event it was given) -/
+theorem source_newAsyncEvent : GeneratedSrc.newAsyncEvent = ExpectedSrc.newAsyncEvent := by rfl
+theorem skeleton_invokeProcessorAsync : Generated.invokeProcessorAsync = Expected.invokeProcessorAsync := by rfl
 
 /-! ### influence closure: the pinned functions, and every function of the repository that writes a struct field or package
 variable they read, are unchanged (digests regenerated from /repo on every run; a difference names the functions) -/
